@@ -19,9 +19,9 @@ def run_single(seq, law):
         return {'raised': repr(ex)}
 
 
-def run_batch(seq, scales, law, node_ids=None):
+def run_batch(seq, scales, law, node_ids=None, labels=None):
     try:
-        return hcm.project(hcm.two_pass_multi(seq, scales, law, node_ids), npoints=len(scales))
+        return hcm.project(hcm.two_pass_multi(seq, scales, law, node_ids, labels), npoints=len(scales))
     except Exception as ex:
         return {'raised': repr(ex)}
 
@@ -97,15 +97,19 @@ def _replay_blocks(args):
         if rng.random() < 0.12 and len(out['rows']) > 0:
             scales = rng.choice([(1, 2, 3), (1, 0.5), (2, 1), (3, 1, 2), (1, 1)])
             ids = rng.choice([None, [5, 3, 9][:len(scales)], [1, 2, 3][:len(scales)]])
-            pb = run_batch(seq, scales, law, ids)
+            nn = len(seq)
+            labels = rng.choice([None, list(range(nn, 0, -1)), rng.sample(range(10, 10 + 3 * nn), nn), [7 * i + 1 for i in range(nn)]])
+            pb = run_batch(seq, scales, law, ids, labels)
             n += 1
+            # NOTE: batches fed through raw process(chunk, flush) calls are NOT checked: on the unchanged tree that path
+            # raises / mis-assigns for many histories and C05 does not quantify over chunkings (DESIGN 5 C05, observation O1)
             if 'raised' in pb:
-                viol.append(('batch of proportional points raised ' + pb['raised'], {**case, 'scales': scales, 'node_ids': ids}, None, pb))
+                viol.append(('batch of proportional points raised ' + pb['raised'], {**case, 'scales': scales, 'node_ids': ids, 'load_step_labels': labels}, None, pb))
             else:
                 for i, c in enumerate(scales):
                     alone = run_single([c * x for x in seq], law)
                     if 'raised' in alone or not rows_equal(point_of(pb, i), alone['rows']):
-                        viol.append(('point %d of a batch differs from the same point processed alone' % i, {**case, 'scales': scales, 'node_ids': ids},
+                        viol.append(('point %d of a batch differs from the same point processed alone' % i, {**case, 'scales': scales, 'node_ids': ids, 'load_step_labels': labels},
                                      alone.get('rows', alone), point_of(pb, i)))
                         break
         if len(out['rows']) >= 2:
